@@ -353,6 +353,92 @@ theorem ccOn_equivariant {left : Img McCell → Img (Val × Nat)} (hL : Equivari
   Equivariant.comp (Equivariant.map (pairStep_equivariant hL hR)
     (fun (x : (Val × Nat) × Val) => ((x.1.1, x.1.2, x.2) : CcCell))) (ccStep_equivariant V CP)
 
+/-! ### the exact cone under cross-checking: left ⊔ (right + interval) -/
+
+/-- the scene of cross-checking built on the domain of the right map (equal to the paired scene whenever the
+    two maps are defined on the same pixels: `ccOnT_eq_ccOn`) -/
+def ccInT (left : Img McCell → Img (Val × Nat)) (dispR : Img McCell → Img Val) : Img McCell → Img CcCell :=
+  fun a p => (dispR a p).map fun dr =>
+    match left a p with
+    | some x => (x.1, x.2, dr)
+    | none => (.nan, 0, dr)
+
+def ccOnT (left : Img McCell → Img (Val × Nat)) (dispR : Img McCell → Img Val) (V : CrossCheck.Variant)
+    (CP : CrossCheck.Params) : Img McCell → Img CrossCheck.PixOut :=
+  fun a => ccStep V CP (ccInT left dispR a)
+
+theorem ccOnT_eq_ccOn (left : Img McCell → Img (Val × Nat)) (dispR : Img McCell → Img Val) (V : CrossCheck.Variant)
+    (CP : CrossCheck.Params) (a : Img McCell) (hdom : ∀ q, (left a q).isSome = (dispR a q).isSome) :
+    ccOnT left dispR V CP a = ccOn left dispR V CP a := by
+  unfold ccOnT ccOn
+  congr 1
+  funext q
+  unfold ccInT pairStep
+  have := hdom q
+  cases hl : left a q <;> cases hr : dispR a q <;> simp [hl, hr] at this ⊢
+
+/-- **Cross-checking on top of a left map with cone `RL` and a right map with cone `Rr`: the cone is
+    `RL ⊔ (Rr + interval)`** — the left map is read at the pixel only. -/
+theorem ccOnT_local {left : Img McCell → Img (Val × Nat)} {RL : Cone} (hL : Local RL left)
+    {dispR : Img McCell → Img Val} {Rr : Cone} (hR : Local Rr dispR)
+    (V : CrossCheck.Variant) (CP : CrossCheck.Params) :
+    Local (RL.sup (Rr.add (ccCone CP))) (ccOnT left dispR V CP) := by
+  intro a b p hab
+  unfold ccOnT
+  have hr : ∀ q, inCone (ccCone CP) p q → dispR a q = dispR b q := by
+    intro q hq
+    apply hR
+    intro r hr
+    apply hab
+    unfold inCone Cone.sup Cone.add at *
+    simp only at *
+    omega
+  apply ccStep_congr
+  · unfold ccInT
+    rw [hr p (inCone_self _ p)]
+    have : left a p = left b p := by
+      apply hL
+      intro r hr'
+      apply hab
+      unfold inCone Cone.sup at *
+      simp only at *
+      omega
+    rw [this]
+  · intro q hq
+    unfold ccInT
+    rw [hr q hq]
+    simp only [Option.map_map]
+    congr 1
+    funext dr
+    simp only [Function.comp]
+    cases left a q <;> cases left b q <;> rfl
+
+theorem ccOnT_equivariant {left : Img McCell → Img (Val × Nat)} (hL : Equivariant left)
+    {dispR : Img McCell → Img Val} (hR : Equivariant dispR) (V : CrossCheck.Variant) (CP : CrossCheck.Params) :
+    Equivariant (ccOnT left dispR V CP) := by
+  have h : Equivariant (ccInT left dispR) := by
+    intro t a
+    funext p
+    simp only [ccInT, hL t a, hR t a, shift]
+  exact Equivariant.comp h (ccStep_equivariant V CP)
+
+/-- **The exact documented cone of the full pipeline**: rows `w/2 + A + filter_size/2`; columns that radius
+    extended by the whole extent of the disparity interval on both sides ("twice": once for the pipeline, once
+    for cross-checking), when cross-checking searches the interval of the pipeline and has no border offset. -/
+theorem pipeConeT_documented (C : PipeCfg) (A : Nat) (CP : CrossCheck.Params) (hoff : CP.offset = 0)
+    (hmin : CP.dmin = C.gmin) (hmax : CP.dmax = C.gmax)
+    (Rf Rr : Cone) (hRf : Cone.le Rf (costCone C (Cone.square A)))
+    (hRr : Cone.le Rr ⟨MC.half C.mc.w + A + C.fs / 2, MC.half C.mc.w + A + C.fs / 2,
+      MC.half C.mc.w + A + C.fs / 2 + C.gmax.toNat, MC.half C.mc.w + A + C.fs / 2 + (-C.gmin).toNat⟩) :
+    Cone.le ((filterCone C (Cone.square A) Rf true).sup (Rr.add (ccCone CP)))
+      ⟨MC.half C.mc.w + A + C.fs / 2, MC.half C.mc.w + A + C.fs / 2,
+       MC.half C.mc.w + A + C.fs / 2 + (-C.gmin).toNat + C.gmax.toNat,
+       MC.half C.mc.w + A + C.fs / 2 + (-C.gmin).toNat + C.gmax.toNat⟩ := by
+  unfold Cone.le at *
+  simp only [filterCone, refineCone, costCone, mcCone, ccCone, Cone.add, Cone.sup, Cone.square,
+    if_true, hoff, hmin, hmax] at *
+  omega
+
 /-! ### the right map is the same pipeline on the swapped pair -/
 
 /-- the scene seen from the right image: images and masks swapped, interval mirrored -/
